@@ -327,6 +327,58 @@ theorem c08_unlocked_update_full_fails :
   rw [h2.1, h2.2.1] at h1
   exact absurd h1 (by decide)
 
+/-! ### the capacity the store works with (`Executor.__init__` → `server.entrypoint` → `LocalServer.__init__` → `Manager.__init__`) -/
+
+/-- **The capacity is the configured one.** The store brought up with `capacity = configured` where /dev/shm offers `avail`
+bytes: it never works with more than /dev/shm offers, the empty store reports its whole capacity as free, a configured value
+that /dev/shm can hold is taken as it is, a configured value is never exceeded, and without a configured value (`None` / 0)
+the store takes what /dev/shm offers. (Tied to the code by bringing every history's store up through the real
+`server.entrypoint`; dropping the argument on the way, re-audit probe P2, makes the real capacity `avail`.) -/
+theorem c08_capacity_configured (configured : Option Nat) (avail sc sr : Nat) :
+    (boot configured avail sc sr).cap ≤ avail ∧ (boot configured avail sc sr).free = (boot configured avail sc sr).cap ∧
+    (∀ c, configured = some c → 0 < c → c ≤ avail → (boot configured avail sc sr).cap = c) ∧
+    (∀ c, configured = some c → 0 < c → (boot configured avail sc sr).cap ≤ c) ∧
+    (configured = none ∨ configured = some 0 → (boot configured avail sc sr).cap = avail) := by
+  refine ⟨?_, rfl, ?_, ?_, ?_⟩
+  · simp only [boot, init, configCapacity]
+    cases configured with
+    | none => simp
+    | some c => simp only; split; simp; split <;> omega
+  · intro c hc h0 hle
+    subst hc
+    simp only [boot, init, configCapacity]
+    split; omega; split <;> omega
+  · intro c hc h0
+    subst hc
+    simp only [boot, init, configCapacity]
+    split; omega; split <;> omega
+  · intro h
+    rcases h with h | h <;> subst h <;> simp [boot, init, configCapacity]
+
+/-- **Executor level.** An executor configured with `shm_vol_gb = g > 0` starts a store in which, after every `SafeRun`
+history, the segments in /dev/shm total at most `g` GiB (and at most what /dev/shm offered), and free space plus resident
+sizes is the smaller of the two. `_partial`: `SafeRun` as in `c08_accounting_partial`; `get_capacity()` (the parsing of
+`findmnt`) is an input. -/
+theorem c08_capacity_executor_partial (g avail sc sr : Nat) (hg : 0 < g) (ops : List Op)
+    (h : SafeRun (boot (execCapacity (some g)) avail sc sr) ops) :
+    segTotal (run (boot (execCapacity (some g)) avail sc sr) ops).segs ≤ g * 1024 ^ 3 ∧
+    segTotal (run (boot (execCapacity (some g)) avail sc sr) ops).segs ≤ avail ∧
+    (run (boot (execCapacity (some g)) avail sc sr) ops).free + residentTotal (run (boot (execCapacity (some g)) avail sc sr) ops).ds
+      = min (g * 1024 ^ 3) avail := by
+  have hb : boot (execCapacity (some g)) avail sc sr = init (min (g * 1024 ^ 3) avail) sc sr := by
+    have hg' : g ≠ 0 := by omega
+    have hp : g * 1024 ^ 3 ≠ 0 := Nat.mul_ne_zero hg' (by decide)
+    simp only [boot, execCapacity, hg', ↓reduceIte, configCapacity, hp]
+    congr 1
+    split <;> omega
+  rw [hb] at h ⊢
+  obtain ⟨h1, h2⟩ := c08_real_usage_partial _ sc sr ops h
+  obtain ⟨h3, _, _⟩ := c08_accounting_partial _ sc sr ops h
+  refine ⟨?_, ?_, h3⟩ <;> omega
+
+example : (boot (execCapacity (some 2)) (5 * 1024 ^ 3) 900 900).cap = 2 * 1024 ^ 3 ∧ (boot (execCapacity none) 4096 900 900).cap = 4096 ∧
+    (boot (execCapacity (some 0)) 4096 900 900).cap = 4096 ∧ (boot (some 100) 64 900 900).cap = 64 := by decide
+
 /-! ### non-vacuity -/
 
 /-- a `SafeRun` history with eviction, successful and failed page-out, page-in, a read and a purge -/
